@@ -570,6 +570,112 @@ def _desugar_fold(w, j, bi, stack):
     return list(range(n0, len(j['blocks'])))
 
 
+# ---------------------------------------------------------------------------------------------
+# a dispatch loop written as an iterator pipeline that the arena consumes (benign2-C09-2):
+#   arena.concat(node.children().map(f))   =>   let mut acc = arena.nil(); for x in node.children() { acc += f(x) }; acc
+# Only the direct form (the receiver of `map` is the children iterator itself) is rewritten; the loop it stands for is then an ordinary
+# loop over syntax nodes for every engine.  Applied to the bodies of typstyle-core when the fact base is loaded (world.py).
+# ---------------------------------------------------------------------------------------------
+NIL_CALLEE = {'def': {'id': 'pretty::DocAllocator::nil', 'path': 'pretty::DocAllocator::nil', 'crate': 'pretty', 'local': False}, 'args': [],
+              's': "<pretty::Arena<'_> as pretty::DocAllocator<'_>>::nil", 'synthetic': True}
+ADD_ASSIGN_CALLEE = {'def': {'id': 'core::ops::arith::AddAssign::add_assign', 'path': 'std::ops::AddAssign::add_assign', 'crate': 'core', 'local': False}, 'args': [],
+                     's': "<pretty::DocBuilder<'_, pretty::Arena<'_>> as std::ops::AddAssign>::add_assign", 'synthetic': True}
+
+
+def _desugar_concat_map(w, j, bi, stack):
+    blk = j['blocks'][bi]
+    t = blk['term']
+    cp = callee_path(t) or ''
+    if not cp.endswith('DocAllocator::concat') or t['target'] is None or len(t['args']) != 2 or t['dest']['proj']:
+        return None
+    it = t['args'][1]
+    if it.get('o') not in ('move', 'copy') or it['p']['proj']:
+        return None
+    cur0, d = it['p']['l'], None
+    for _ in range(4):
+        d = _single_def(j, cur0)
+        if d is not None and d[0] == 'rv' and d[1].get('r') == 'use' and d[1]['op'].get('o') in ('move', 'copy') and not d[1]['op']['p']['proj']:
+            cur0 = d[1]['op']['p']['l']
+            continue
+        break
+    if d is None or d[0] != 'call' or (callee_path(d[1]) or '') != 'std::iter::Iterator::map' or len(d[1]['args']) != 2:
+        return None
+    mt = d[1]
+    inner = mt['args'][0]
+    if inner.get('o') not in ('move', 'copy') or inner['p']['proj']:
+        return None
+    # the receiver of map is the children iterator itself
+    cur, ok = inner['p']['l'], False
+    for _ in range(4):
+        dd = _single_def(j, cur)
+        if dd is None:
+            break
+        if dd[0] == 'call' and (callee_path(dd[1]) or '').endswith('SyntaxNode::children'):
+            ok = True
+            break
+        if dd[0] == 'rv' and dd[1].get('r') == 'use' and dd[1]['op'].get('o') in ('move', 'copy') and not dd[1]['op']['p']['proj']:
+            cur = dd[1]['op']['p']['l']
+            continue
+        break
+    if not ok:
+        return None
+    cb, cl = _closure_of_operand(w, j, mt['args'][1])
+    if cb is None or cb.id in stack or len(stack) >= 4 or cb.arg_count != 2:
+        return None
+    B = _Builder(j, t['span'], stack)
+    n0 = len(j['blocks'])
+    dest, target = t['dest'], t['target']
+    il = inner['p']['l']
+    ity = j['locals'][il]['ty']
+    item_ty = cb.j['locals'][2]['ty']
+    dty = j['locals'][dest['l']]['ty']
+    acc = B.local(dty)
+    accref = B.local({'k': 'ref', 'mut': True, 't': dty, 's': '&mut %s' % dty.get('s', '?')})
+    piece = B.local(cb.j['locals'][0]['ty'])
+    unit = B.local({'k': 'tuple', 'ts': [], 's': '()'})
+    nxt = B.local(_opt_ty(item_ty))
+    dd_ = B.local({'k': 'int', 'n': 'isize', 's': 'isize'})
+    x = B.local(item_ty)
+    itref = B.local({'k': 'ref', 'mut': True, 't': ity, 's': '&mut %s' % ity.get('s', '?')})
+    head = B.block([B.assign(_pl(itref), {'r': 'ref', 'mut': True, 'p': _pl(il)})])
+    test = B.block([B.assign(_pl(dd_), {'r': 'discr', 'p': _pl(nxt)})])
+    unreach = B.block()
+    j['blocks'][head]['term'] = {'t': 'call', 'callee': copy.deepcopy(NEXT_CALLEE), 'args': [{'o': 'copy', 'p': _pl(itref)}], 'dest': _pl(nxt), 'target': test, 'span': t['span'],
+                                 'fn_span': t.get('fn_span', t['span']), 'synthetic': True}
+    exit_b = B.block([B.assign(copy.deepcopy(dest), _use(_mv(acc)))], B.goto(target))
+    add_b = B.block([B.assign(_pl(accref), {'r': 'ref', 'mut': True, 'p': _pl(acc)})])
+    j['blocks'][add_b]['term'] = {'t': 'call', 'callee': copy.deepcopy(ADD_ASSIGN_CALLEE), 'args': [_mv(accref), _mv(piece)], 'dest': _pl(unit), 'target': head, 'span': t['span'],
+                                  'fn_span': t.get('fn_span', t['span']), 'synthetic': True}
+    bind = B.assign(_pl(x), _use(_payload(nxt, OPT, 'pos', item_ty)))
+    entry, new = _expand_closure(w, B, cb, cl, [_use(_mv(x))], _pl(piece), add_b, stack)
+    j['blocks'][entry]['stmts'].insert(0, bind)
+    j['blocks'][test]['term'] = {'t': 'switch', 'discr': _mv(dd_), 'discr_ty': 'isize', 'targets': [[0, exit_b], [1, entry]], 'otherwise': unreach, 'span': t['span']}
+    blk['term'] = {'t': 'call', 'callee': copy.deepcopy(NIL_CALLEE), 'args': [copy.deepcopy(t['args'][0])], 'dest': _pl(acc), 'target': head, 'span': t['span'],
+                   'fn_span': t.get('fn_span', t['span']), 'synthetic': True, 'desugared': cp + ' over map'}
+    return list(range(n0, len(j['blocks'])))
+
+
+def pipelines_desugared(w, body):
+    """the body with `arena.concat(children().map(f))` rewritten as the loop it stands for; None when the body has no such pipeline"""
+    if not any(blk['term']['t'] == 'call' and (callee_path(blk['term']) or '').endswith('DocAllocator::concat') for blk in body.j['blocks']):
+        return None
+    j = copy.deepcopy(body.j)
+    for blk in j['blocks']:
+        blk.setdefault('inl', ())
+    changed = False
+    for bi in range(len(j['blocks'])):
+        blk = j['blocks'][bi]
+        if blk['term']['t'] == 'call' and not blk.get('cleanup'):
+            if _desugar_concat_map(w, j, bi, blk['inl']):
+                changed = True
+    if not changed:
+        return None
+    nb = Body(j, body.crate)
+    nb.inlined = ['desugared:concat-map']
+    nb.original = body
+    return nb
+
+
 _DESUGARED = {}
 
 
